@@ -33,7 +33,7 @@ C = {
  "C12": ("alpha(psll) proved strictly increasing; the DFT-even Kaiser construction is re-extracted from source (T3) and checked; kaiser_alpha tied bit-exactly; side-lobe level swept on the implementation with the property's own P-1 dB threshold.", "7/C12",
          "PARTIAL: the Kaiser-Bessel side-lobe bound is not a theorem (Bessel analysis over a continuum; no library support) — swept", T_HAND),
  "C13": ("Shape normalisation model (Ingest.v) proved layout-independent and tied by vm_compute correspondence; sanitising proved idempotent/finite at binary64; guarded divisions on the regenerated table; caller bytes, zero-filled equality, finiteness on real runs.", "7/C13",
-         "NumPy aliasing is observed not modelled; F11 (overflow/underflow of XX*YY for |x| ~ 1e120 / 1e-150) is a recorded finding", T_HAND),
+         "NumPy aliasing is observed not modelled; the overflow/underflow of XX*YY for |x| ~ 1e120 / 1e-150 (F11) was repaired in /repo (ab4ef91) and is kept as a regression family", T_HAND),
  "C14": ("Any interleaving of a loop writing only slot j is deterministic (Race theorem) and T1's effect summaries show all 12 parallel kernels have that form; plan-cache and attribute-cache histories proved equivalent to fresh objects; thread/chunk sweep, random histories and access orders on the implementation.", "7/C14",
          "Numba's scheduler and memory model are not modelled (theorem is about the effect summary extracted from source)", "Coq theorems (schedule/history independence) + effect summary regenerated from source + sweeps"),
  "C15": ("The residual expression with the code's index/conjugate pairing is proved, for any number of inputs q and any number of accumulated segments, equal to sum_k |Y_k - sum_i conj(H_i) X_ik|^2 for any H (real, >= 0 whatever the solver returns); at any solution of the code's system T H = S it equals S00 - sum_k|model_k|^2 and lies in [0, S00]; a solution minimises the residual, so all solutions (analytic/numeric, solve/pinv) give the same residual and invertible re-mixing leaves it unchanged; exact combinations give 0; input order irrelevant; the one-input residual equals S00 - |S10|^2/T11. Source pairing checked by AST; solvers exercised for q = 1..3.", "7/C15",
